@@ -235,6 +235,8 @@ def specable_cond(t):
                 return False
         if t[2] == "not_in_range":
             return False
+        if t[2] == "items_contain" and not t[4]:
+            return False  # an empty mapping argument (see specable_arg)
         if t[2] != t[2].lower():
             return False  # spec keys are lower-cased by the parser: *_N_of cannot be spelled
     return True
